@@ -182,7 +182,7 @@ def pluralStep (a : Option Cls) : Res Unit :=
 /-- babel: `format_currency` / `format_decimal` of `_parse_decimal(left)` -/
 def babelDecimal : Cls → Res Unit
   | int_huge | int_giant | str_hugeint | str_exp => raise .decimal_InvalidOperation
-  | int_big => [.ok (), .error .decimal_InvalidOperation]      -- more than 28 digits (from 2**94 on)
+  | int_big | str_bigdigits => [.ok (), .error .decimal_InvalidOperation]      -- more than 28 digits (from 2**94 on)
   | _ => pure ()
 
 /-- babel `datetime`: `_parse_datetime(left)` (a number, or `none` for a parsed date) then `format_datetime` -/
@@ -398,7 +398,10 @@ def st_json (l : Cls) : Steps :=
 def st_index (l : Cls) : Steps :=
   { s1 := fun a => match a with
   | none => pure ()
-  | some _ => if l == undefined then raise .AttributeError else pure () }
+  | some _ =>
+    -- `left.index(obj)`: Undefined has no `index`; a missing item raises ValueError
+    tryCatch (if l == undefined then raise .AttributeError else Res.alt (pure ()) (raise .ValueError))
+      catch_extra_filters_array_index_0 (fun _ => some (pure ())) }
 
 def st_sort_numeric (l : Cls) : Steps :=
   { s1 := fun a =>
@@ -444,7 +447,7 @@ def st_unit (l : Cls) : Steps :=
       Res.alt (raise .babel_UnknownUnitError)
         (match l with
          | int_huge | int_giant | str_hugeint | str_exp => raise .decimal_InvalidOperation
-         | int_big => [.ok (), .error .decimal_InvalidOperation]
+         | int_big | str_bigdigits => [.ok (), .error .decimal_InvalidOperation]
          | float_inf | float_ninf | str_inf => raise .OverflowError
          | float_nan | str_nan => raise .ValueError
          | _ => pure ())
@@ -537,19 +540,42 @@ def runFilter (f : FilterName) (l : Cls) (args : List Cls) : Res Unit :=
 /-! ## Tag-level sites: one hole `x` in a template -/
 
 inductive Site
-  | output | range_bound | for_limit | for_offset | tablerow_cols | tablerow_limit | translate_count
-  | contains_left | contains_in_str | contains_in_dict | include_name | cycle_item
+  | output | range_bound | for_limit | for_offset | tablerow_cols | tablerow_limit | translate_count | contains_left
+  | contains_in_str | contains_in_dict | include_name | cycle_item | assign | lt_left | lt_right | lt_str
+  | ge_self | eq_int | eq_empty | eq_blank | contains_list | contains_empty | truthy | not_
+  | idx_list | idx_dict | idx_str | sub0 | subk | dot_size | dot_first | dot_last
+  | dot_k | case_ | when_ | cycle_group | render_with | render_for | render_arg | include_with
+  | include_for | include_arg | ifchanged | with_ | macro_arg | translate_var | ternary_cond | ternary_val
+  | for_iter | tablerow_iter | liquid_echo | kw_allow_false | kw_t_var | kw_t_count | kw_t_plural | kw_unknown
+  | kw_unknown_t
   deriving DecidableEq, Repr
 
 def Site.all : List Site :=
-  [.output, .range_bound, .for_limit, .for_offset, .tablerow_cols, .tablerow_limit, .translate_count,
-   .contains_left, .contains_in_str, .contains_in_dict, .include_name, .cycle_item]
+  [.output, .range_bound, .for_limit, .for_offset, .tablerow_cols, .tablerow_limit, .translate_count, .contains_left,
+   .contains_in_str, .contains_in_dict, .include_name, .cycle_item, .assign, .lt_left, .lt_right, .lt_str,
+   .ge_self, .eq_int, .eq_empty, .eq_blank, .contains_list, .contains_empty, .truthy, .not_,
+   .idx_list, .idx_dict, .idx_str, .sub0, .subk, .dot_size, .dot_first, .dot_last,
+   .dot_k, .case_, .when_, .cycle_group, .render_with, .render_for, .render_arg, .include_with,
+   .include_for, .include_arg, .ifchanged, .with_, .macro_arg, .translate_var, .ternary_cond, .ternary_val,
+   .for_iter, .tablerow_iter, .liquid_echo, .kw_allow_false, .kw_t_var, .kw_t_count, .kw_t_plural, .kw_unknown,
+   .kw_unknown_t]
 
 def Site.name : Site → String
   | .output => "output" | .range_bound => "range_bound" | .for_limit => "for_limit" | .for_offset => "for_offset"
-  | .tablerow_cols => "tablerow_cols" | .tablerow_limit => "tablerow_limit" | .translate_count => "translate_count"
-  | .contains_left => "contains_left" | .contains_in_str => "contains_in_str" | .contains_in_dict => "contains_in_dict"
-  | .include_name => "include_name" | .cycle_item => "cycle_item"
+  | .tablerow_cols => "tablerow_cols" | .tablerow_limit => "tablerow_limit" | .translate_count => "translate_count" | .contains_left => "contains_left"
+  | .contains_in_str => "contains_in_str" | .contains_in_dict => "contains_in_dict" | .include_name => "include_name" | .cycle_item => "cycle_item"
+  | .assign => "assign" | .lt_left => "lt_left" | .lt_right => "lt_right" | .lt_str => "lt_str"
+  | .ge_self => "ge_self" | .eq_int => "eq_int" | .eq_empty => "eq_empty" | .eq_blank => "eq_blank"
+  | .contains_list => "contains_list" | .contains_empty => "contains_empty" | .truthy => "truthy" | .not_ => "not_"
+  | .idx_list => "idx_list" | .idx_dict => "idx_dict" | .idx_str => "idx_str" | .sub0 => "sub0"
+  | .subk => "subk" | .dot_size => "dot_size" | .dot_first => "dot_first" | .dot_last => "dot_last"
+  | .dot_k => "dot_k" | .case_ => "case_" | .when_ => "when_" | .cycle_group => "cycle_group"
+  | .render_with => "render_with" | .render_for => "render_for" | .render_arg => "render_arg" | .include_with => "include_with"
+  | .include_for => "include_for" | .include_arg => "include_arg" | .ifchanged => "ifchanged" | .with_ => "with_"
+  | .macro_arg => "macro_arg" | .translate_var => "translate_var" | .ternary_cond => "ternary_cond" | .ternary_val => "ternary_val"
+  | .for_iter => "for_iter" | .tablerow_iter => "tablerow_iter" | .liquid_echo => "liquid_echo" | .kw_allow_false => "kw_allow_false"
+  | .kw_t_var => "kw_t_var" | .kw_t_count => "kw_t_count" | .kw_t_plural => "kw_t_plural" | .kw_unknown => "kw_unknown"
+  | .kw_unknown_t => "kw_unknown_t"
 
 /-- `LoopExpression._to_int` -/
 def loopToInt (x : Cls) : Res Cls :=
@@ -579,6 +605,25 @@ def runSite (s : Site) (x : Cls) : Res Unit :=
   | .contains_in_dict => pure ()   -- `d contains x`: `any(_eq(item, x) for item in d)`, nothing is hashed
   | .include_name => do let _ ← pyStr x; raise .TemplateNotFoundError
   | .cycle_item => (toLiquidString x).unit
+  -- nothing is converted: the value is bound, compared with Liquid equality, tested for truthiness, used as a
+  -- subscript (`RenderContext.get_item` turns KeyError/IndexError/TypeError into Undefined) or iterated
+  | .assign | .ge_self | .eq_int | .eq_empty | .eq_blank | .contains_list | .truthy | .not_ | .idx_list | .idx_dict | .idx_str
+  | .sub0 | .subk | .dot_size | .dot_first | .dot_last | .dot_k | .case_ | .when_ | .ternary_cond | .for_iter | .tablerow_iter
+  | .kw_allow_false | .kw_unknown_t => pure ()
+  -- `_lt`: two strings, a bool on either side (false), or two numbers; anything else is a LiquidTypeError
+  | .lt_left | .lt_right => if x.isNum then pure () else raise .LiquidTypeError        -- `x < 1`, `1 < x`
+  | .lt_str => if x.isStr || x.isBool then pure () else raise .LiquidTypeError          -- `'a' < x`
+  | .contains_empty =>   -- `x contains empty`
+    if liquidFalsy x || x.isStr || x.isList || x.isDict || x == range_ then pure () else raise .LiquidTypeError
+  -- the value is written to the output (or a message) through `to_liquid_string`
+  | .cycle_group | .render_with | .render_for | .render_arg | .include_with | .include_for | .include_arg | .ifchanged
+  | .with_ | .macro_arg | .translate_var | .ternary_val | .liquid_echo | .kw_t_var | .kw_t_plural => (toLiquidString x).unit
+  | .kw_t_count =>   -- `t: plural: 'b', count: x`: `translate._count`, then `Filter.evaluate`'s handlers
+    List.flatMap postEval
+      ((if x == none_ || x.isBool then pure ()
+        else (tryCatch (pyInt x) catch_extra_filters_translate__count_0 (fun _ => some (pure int_zero))).unit) : Res Unit)
+  | .kw_unknown =>   -- an unexpected keyword argument: TypeError at the call, inside the decorator's try
+    List.flatMap postEval (postDeco .upcase_ (.error .TypeError))
 
 /-! ## Handlers that everything passes through -/
 
